@@ -67,7 +67,7 @@ func TestMutationSweepAgreement(t *testing.T) {
 				_, err := runPA(m, w.dgs, nil, trust)
 				if err != nil {
 					if len(err.Error()) >= 5 && err.Error()[:5] == "PANIC" {
-						deviation(t, fmt.Sprintf("sweep-panic/%s/%d/%02x", ks.Kind, pos, x), "%v", err)
+						t.Errorf("GMRTD-DEVIATION (NEW) sweep-panic/%s/%d/%02x: %v", ks.Kind, pos, x, err)
 					}
 					continue
 				}
